@@ -1,5 +1,7 @@
 package nfa
 
+import "github.com/coregx/coregex/verifhook"
+
 // BoundedBacktracker implements a bounded backtracking regex matcher.
 // It uses generation-based visited tracking with uint8 for (state, position) pairs,
 // providing 4x memory efficiency over uint32 tracking while maintaining O(1) reset.
@@ -152,12 +154,14 @@ func (b *BoundedBacktracker) reset(state *BacktrackerState, haystackLen int) {
 	// Calculate required size in entries
 	entriesNeeded := b.numStates * (haystackLen + 1)
 
+	vcap, vrealloc, vwrap := cap(state.Visited), 0, 0 // verif: observed by the btreset event
 	// Reuse or allocate visited array
 	if cap(state.Visited) >= entriesNeeded {
 		state.Visited = state.Visited[:entriesNeeded]
 	} else {
 		state.Visited = make([]uint16, entriesNeeded)
 		state.Generation = 0 // New array starts fresh
+		vrealloc = 1
 	}
 
 	// Increment generation for fresh visited state (O(1) instead of O(n) clear)
@@ -168,6 +172,10 @@ func (b *BoundedBacktracker) reset(state *BacktrackerState, haystackLen int) {
 			state.Visited[i] = 0
 		}
 		state.Generation = 1
+		vwrap = 1
+	}
+	if verifhook.On {
+		verifhook.Emit("btreset", entriesNeeded, vcap, vrealloc, int(state.Generation), vwrap, b.numStates, haystackLen, cap(state.Visited))
 	}
 }
 
@@ -277,6 +285,9 @@ func (b *BoundedBacktracker) SearchAtWithState(haystack []byte, at int, state *B
 
 	// Try to match starting at each position from 'at'
 	for startPos := at; startPos <= len(haystack); startPos++ {
+		if verifhook.On {
+			verifhook.Emit("btattempt", startPos-at, int(state.Generation))
+		}
 		var end int
 		if state.Longest {
 			end = b.backtrackFindLongestWithState(haystack, startPos, b.nfa.StartAnchored(), state)
@@ -289,12 +300,17 @@ func (b *BoundedBacktracker) SearchAtWithState(haystack []byte, at int, state *B
 		// O(1) reset: increment generation instead of O(n) array clear
 		// This is the key optimization that makes Search fast on large inputs
 		state.Generation++
+		vwrap := 0 // verif: observed by the btbump event
 		// Handle overflow by resetting the array (every 256 searches)
 		if state.Generation == 0 {
 			for i := range state.Visited {
 				state.Visited[i] = 0
 			}
 			state.Generation = 1
+			vwrap = 1
+		}
+		if verifhook.On {
+			verifhook.Emit("btbump", int(state.Generation), vwrap)
 		}
 	}
 	return -1, -1, false
